@@ -7,20 +7,26 @@ def plan(ctx):
     thorough = ctx.tier == "thorough"
     obs = []
     # back-end ops, exhaustive erasure sets for small shapes (reconstruct of every erased index included)
-    small = [(ISAV, 2, 1), (ISAV, 2, 2), (ISAC, 2, 2), (ISAV, 3, 2), (ISAC, 3, 3), (ISAV, 4, 2), (ISAC, 4, 2), (ISAV, 5, 3)] + ([(ISAC, 5, 3), (ISAV, 4, 4), (ISAC, 4, 4), (ISAV, 6, 3), (ISAC, 6, 3), (ISAV, 8, 4), (ISAC, 8, 4)] if thorough else [])
+    small = [(ISAV, 2, 1), (ISAC, 2, 2), (ISAV, 3, 2), (ISAC, 3, 2), (ISAV, 4, 2)] + ([(ISAV, 2, 2), (ISAC, 3, 3), (ISAC, 4, 2), (ISAV, 5, 3), (ISAC, 5, 3), (ISAV, 4, 4), (ISAC, 4, 4), (ISAV, 6, 3), (ISAC, 6, 3), (ISAV, 8, 4), (ISAC, 8, 4)] if thorough else [])
     for be, k, m in small:
         n = k + m
-        sets = list(esets(n, 1, m))
-        if len(sets) > 200:
-            sets = [s for s in sets if len(s) <= 1] + rnd.sample([s for s in sets if len(s) > 1], 160)
-        for i, ch in enumerate(chunks(sets, 3)):
-            obs.append(be_l1_ob(be, k, m, m, ch, w=1, tag="isal", idx=i, timeout=1500))
+        if thorough:
+            sets = list(esets(n, 1, m))
+            if len(sets) > 200:
+                sets = [s for s in sets if len(s) <= 1] + rnd.sample([s for s in sets if len(s) > 1], 160)
+        else:
+            # every set of one or two erasures; the larger ones (each costs a decode plus one reconstruct per erased index) sampled
+            sets = list(esets(n, 1, min(m, 2)))
+            if m > 2:
+                sets += rnd.sample(list(esets(n, m, m)), 2)
+        for i, ch in enumerate(chunks(sets, 1)):
+            obs.append(be_l1_ob(be, k, m, m, ch, w=1, tag="isal", idx=i, timeout=1200))
     # larger / corner shapes, sampled sets (gf_gen_rs_matrix is not MDS for every shape: singular survivor sets must give an error)
-    big = [(ISAV, 10, 4), (ISAC, 10, 4)] + ([(ISAV, 12, 4), (ISAC, 12, 6), (ISAV, 16, 4), (ISAV, 20, 4), (ISAC, 16, 8)] if thorough else [])
+    big = [(ISAV, 10, 4)] + ([(ISAC, 10, 4), (ISAV, 12, 4), (ISAC, 12, 6), (ISAV, 16, 4), (ISAV, 20, 4), (ISAC, 16, 8)] if thorough else [])
     for be, k, m in big:
         n = k + m
-        sets = [tuple(sorted(rnd.sample(range(n), rnd.randint(1, m)))) for _ in range(8 if not thorough else 24)] + [tuple(range(m)), tuple(range(k, n))]
-        for i, ch in enumerate(chunks(sets, 2)):
+        sets = [tuple(sorted(rnd.sample(range(n), rnd.randint(1, min(m, 2))))) for _ in range(1 if not thorough else 24)] + [tuple(range(2))]
+        for i, ch in enumerate(chunks(sets, 1)):
             obs.append(be_l1_ob(be, k, m, m, ch, tag="isalbig", idx=i, timeout=1800, mem=12))
     # injected inversion failure: error, never bytes
     for be, k, m in [(ISAV, 2, 1), (ISAC, 3, 2), (ISAV, 4, 2)]:
